@@ -407,6 +407,13 @@ func (t *svTree) drive(dir string, stall time.Duration) {
 			t.emit("Settled", nil)
 		}
 		svT.mu.Unlock()
+		if ok {
+			// the package's own notion of "settled" (no request for > 50 GC cycles) must be reached as well
+			wctx, wcancel := context.WithTimeout(context.Background(), stall)
+			werr := t.sup.waitSettle(wctx)
+			wcancel()
+			t.log("WaitSettled", map[string]interface{}{"ok": werr == nil}, nil)
+		}
 		if ok || killNow {
 			break
 		}
